@@ -63,6 +63,7 @@ type simNet struct {
 	// tamper, when set, may rewrite a request before it is handed to the receiver (C12)
 	OnPayload func(kind string, from, to peer.ID, payload []byte)
 	pubsubQ   []pubsubMsg
+	pushSeen  [][2]string // (receiver, docID) of every push-log request issued
 }
 
 type pubsubMsg struct {
@@ -83,6 +84,7 @@ func (n *simNet) PushLog(ctx context.Context, from, to peer.ID, req defranet.Sim
 	if n.OnPayload != nil {
 		n.OnPayload("pushlog", from, to, req.Block)
 	}
+	n.pushSeen = append(n.pushSeen, [2]string{to.String(), req.DocID})
 	if n.down[to] || n.down[from] || n.nodes[to] == nil {
 		n.stats["push_refused_unreachable"]++
 		n.mu.Unlock()
